@@ -18,7 +18,12 @@ Oracle (independent of the Lean model; evaluated on cases with complete, consist
                   (advertised values) is answered "ok" for adjust_power = True and False — never OutOfBounds/Error;
                   the same for every p != 0 with `Power(p) in SystemBounds` (the literal container test);
   min-power       such a p > 0 is >= the sum of the groups' consume-side min_power, p < 0: -p >= supply-side sum.
-Correspondence: the same case through `Drivers/PoolBounds.lean`, all outputs compared exactly (rationals as n/d).
+Irregular topologies (chains, partially shared inverters): the battery sets are whatever the real maps derive; when
+they overlap (regime `OverlappingBatterySets`, computed from the graph alone) the min-power clause is a known finding.
+A small stream also runs the real `SendOnUpdate(PowerBoundsCalculator)` with its asyncio tasks on the virtual clock
+and requires the streamed `SystemBounds` to equal the one computed through the synchronous seam.
+Correspondence: the same case through `Drivers/PoolBounds.lean`, all outputs compared exactly (rationals as n/d);
+every 8th case is re-run on IEEE doubles (float-vs-exact sweep, reported as `float_gap_max_rel`).
 """
 from __future__ import annotations
 
@@ -193,9 +198,18 @@ def check_irregular(ctx: Ctx, topo: dict, rng: random.Random, powers: list[str] 
                           powers if powers is not None else power_fn, derive=True)
     by_b = {b["id"]: b for b in topo["bats"]}
     by_i = {i["id"]: i for i in topo["invs"]}
-    groups = [{"bats": [by_b[b] for b in bs], "invs": [by_i[i] for i in is_]} for bs, is_ in impl.pop("derived")]
-    case = {"topology": topo, "groups": groups, "powers": impl.pop("powers")}
+    derived = impl.pop("derived")
     regime = "OverlappingBatterySets" if overlapping_sets(topo) else None
+    if derived is None:
+        # calculator and manager (or the harness' reading of them) do not form the same battery sets: the model has no
+        # input for that; the oracle still compares the two real sides
+        case = {"topology": topo, "powers": impl.pop("powers")}
+        oracle(ctx, case, impl, regime=regime)
+        ctx.case(case, tags=["irregular-topology", "battery-sets-differ-between-sides(oracle only)"], nontrivial=True)
+        ctx.note("battery sets derived by the calculator and by the manager differ on some topology (oracle only there)")
+        return None, None
+    groups = [{"bats": [by_b[b] for b in bs], "invs": [by_i[i] for i in is_]} for bs, is_ in derived]
+    case = {"topology": topo, "groups": groups, "powers": impl.pop("powers")}
     oracle(ctx, case, impl, regime=regime)
     ctx.case(case, tags=["irregular-topology", "overlapping-sets" if regime else "irregular-but-disjoint-sets"], nontrivial=True)
     return case, impl
@@ -211,8 +225,9 @@ def run_case_json(ctx: Ctx, case: dict, rng: random.Random, cases: list, outs: l
         c, o = check_irregular(ctx, case["topology"], rng, powers=case.get("powers"))
     else:
         c, o = check_groups(ctx, case["groups"], rng, powers=case.get("powers"))
-    cases.append(c)
-    outs.append(o)
+    if c is not None:
+        cases.append(c)
+        outs.append(o)
 
 
 def run(ctx: Ctx) -> None:
@@ -228,14 +243,28 @@ def run(ctx: Ctx) -> None:
         r = rng.random()
         if r < 0.08:
             c, o = check_irregular(ctx, gen_irregular(rng), rng)
-            cases.append(c)
-            outs.append(o)
+            if c is not None:
+                cases.append(c)
+                outs.append(o)
             continue
         consistent = r < 0.9
         groups = g.gen_c17_groups(rng, consistent, incomplete=0.12 if consistent else 0.3)
         c, o = check_groups(ctx, groups, rng)
         cases.append(c)
         outs.append(o)
+    # the bounds really STREAMED by `SendOnUpdate(PowerBoundsCalculator)` (asyncio tasks on the virtual clock, mocked
+    # API channels) must be the ones computed through the synchronous seam above
+    for i in range(ctx.budget(30, 500)):
+        rng = ctx.subrng("fullstack", i)
+        groups = g.gen_c17_groups(rng, True, incomplete=0.3)
+        c, o = check_groups(ctx, groups, rng)
+        cases.append(c)
+        outs.append(o)
+        streamed = g.run_c17_fullstack_adv(groups)
+        ctx.tags["full-stack SendOnUpdate stream"] = ctx.tags.get("full-stack SendOnUpdate stream", 0) + 1
+        if "raised" not in o and streamed != o["adv"]:
+            ctx.mismatch(c, {"streamed_by_SendOnUpdate": streamed}, {"synchronous_seam": o["adv"]},
+                         "bounds streamed by the real SendOnUpdate vs PowerBoundsCalculator driven synchronously")
     if ctx.tier == "thorough":
         # bounded-exhaustive small scope: two 1:1 battery sets, every combination of exclusion / inclusion bounds from a
         # small lattice on the battery and on the inverter (symmetric lower bounds), powers on/next to every bound
